@@ -420,6 +420,27 @@ def rule_scope(facts, col, pred=None, rule_id="C15"):
         if fl not in files_in_scope:
             continue
         free[(fl, _audit_cls(ak))] = free.get((fl, _audit_cls(ak)), 0) + left
+    # A KNOWN finding whose site has moved (extracted into a helper, `assert!` spelled as `if .. { panic! }`): when no site has
+    # the recorded key any more and exactly one un-audited site of the same class shows the same condition text, that site IS
+    # the known finding - reported under its recorded key (exact-key suppression stays exact), with its new location.
+    if rule_id == "C15":
+        from ..core import load_known
+        known = load_known().get("C15", {})
+        for kk in known:
+            m_ = re.match(r"C15\.(D\d):(.*)\|([^|]*)\|([^|]*)$", kk)
+            if not m_:
+                continue
+            kcls, kfn, kkind, kdesc = m_.groups()
+            if any(k2 == "%s|%s|%s" % (kfn, kkind, kdesc) for k2 in seen_keys):
+                continue          # still where it was
+            cands = [(rid, key, site) for rid, key, site in pending if site.cls() == kcls and norm(site.desc) == kdesc
+                     and kkind.split(":")[0] == site.kind.split(":")[0]]
+            if len(cands) == 1:
+                rid, key, site = cands[0]
+                pending.remove(cands[0])
+                col.bad(rid, "%s|%s|%s" % (kfn, kkind, kdesc), site.body.where(site.bb),
+                        "content-dependent panic edge without a dominating guard: %s (%s) - the known finding recorded for %s, now in %s"
+                        % (site.desc[:160], site.kind, kfn, site.body.q), {"kind": site.kind, "moved_to": site.body.q})
     groups = {}
     for rid, key, site in pending:
         groups.setdefault((site.body.file, site.cls()), []).append((rid, key, site))
@@ -455,6 +476,8 @@ def run(ctx):
     from . import c09, c19
     c09.rule_r7(facts, ctx, rule_id="C15.S1")
     c09.rule_r2(facts, c19._Retag(ctx, "C09.R2", "C15.S2"))
+    c09.rule_r4(facts, c19._Retag(ctx, "C09.R4", "C15.S3"))     # a wait for less than the test required is satisfied at once: spin
+    ctx.floor("C15.S3", 30, "WaitForStream sites with a plain short-window test (same floor as C09.R4)")
     ctx.floor("C15.S1", 40, "WaitForStream verdicts with a constant amount (same floor as C09.R7)")
     ctx.floor("C15.S2", 50, "Again return sites / work bodies (same floor as C09.R2)")
     from .. import controls
